@@ -188,6 +188,16 @@ func RunC11(c *Ctx) error {
 		r := prng.Sub(c.Seed, "c11/"+gc.ID+"/"+strings.Join(cf.flags, ","), ci)
 		addPlan := func(label string, mp simrt.MapPlan, rerun bool) {
 			p := simrt.Plan{Map: mp, Clock: 1700000000 + int64(r.Intn(1<<30)), Rand: r.U64(), Pid: 2 + r.Intn(60000), Host: fmt.Sprintf("h%d", r.Intn(100)), TickBudget: 5e8}
+			// goroutine schedule and CPU count (dormant while gocc has no goroutines)
+			p.CPUs = []int{1, 2, 4, 16}[r.Intn(4)]
+			switch r.Intn(4) {
+			case 0:
+				p.Sched = simrt.SchedPlan{Policy: "main-first"}
+			case 1:
+				p.Sched = simrt.SchedPlan{Policy: "child-first"}
+			default:
+				p.Sched = simrt.SchedPlan{Policy: "random", Seed: r.U64(), Every: []int{1, 7, 50, 1000}[r.Intn(4)]}
+			}
 			s := base
 			s.Plan = &p
 			s.GOMAXPROCS = []int{1, 4, 16}[r.Intn(3)]
@@ -388,6 +398,38 @@ func c11Report(c *Ctx, g *sut.Gocc, w *engine.Worker, j *c11Job, ref *engine.Res
 	}
 	spec := j.spec
 	culprit := ""
+	// Is the output unstable even when every simulated choice is the reference's?
+	{
+		p := simrt.Plan{Map: simrt.MapPlan{Policy: "identity"}, Clock: 1700000000, Pid: 4242, TickBudget: 5e8}
+		s0 := spec
+		s0.Plan = &p
+		s0.Pre = ""
+		for k := 0; k < 3; k++ {
+			if r, err := w.Exec(g.Sim, &s0, 120*time.Second); err == nil {
+				if d := c11Compare(ref, r); d != "" {
+					c.Report(&Violation{Class: "output-differs", Key: map[string]string{"grammar": spec.GrammarID, "site": "outside-the-seams"},
+						Detail: fmt.Sprintf("%s %v: two runs with IDENTICAL simulated map orders, clock, pid and schedule differ (a source of nondeterminism outside the simulator's seams, e.g. map iteration inside a library or real goroutine timing): %s", spec.GrammarID, spec.Flags, d),
+						Plan:   c11Replay{Spec: s0}})
+					return
+				}
+			}
+		}
+	}
+	if !second && (spec.Plan.Sched.Policy != "" || spec.Plan.CPUs != 0) {
+		// map order sorted everywhere, only the goroutine schedule / CPU count of the plan
+		p := *j.spec.Plan
+		p.Map = simrt.MapPlan{Policy: "identity"}
+		s2 := j.spec
+		s2.Plan = &p
+		if r, err := w.Exec(g.Sim, &s2, 120*time.Second); err == nil {
+			if d := c11Compare(ref, r); d != "" {
+				c.Report(&Violation{Class: "output-differs", Key: map[string]string{"grammar": spec.GrammarID, "site": "goroutine-schedule"},
+					Detail: fmt.Sprintf("%s %v: with every map order sorted, the goroutine schedule %+v with %d CPUs alone changes the result (reference: main-first): %s", spec.GrammarID, spec.Flags, p.Sched, p.CPUs, d),
+					Plan:   c11Replay{Spec: s2}})
+				return
+			}
+		}
+	}
 	if !second && len(spec.Plan.Map.Only) == 0 {
 		// which single site reproduces it?
 		var sites []string
